@@ -109,11 +109,12 @@ def run(ctx):
         raise common.BuildError("Corr/CheckCommit.v does not build:\n" + log[-3000:])
     env = st.rocfl_env(os.path.join(ctx.tmp, "home"))
     workers = max(4, min(14, common.NPROC - 2))
-    scns = cl.scenario_list(ctx) + [cl.Scn("manydup", "0004", False)] + ([] if ctx.quick() else [cl.Scn("manydup", "0002", True)])
+    scns = cl.scenario_list(ctx) + [cl.Scn("manydup", "0004", False), cl.Scn("dupold", "0004", False)] + \
+        ([] if ctx.quick() else [cl.Scn("manydup", "0002", True), cl.Scn("dupold", "0002", True)])
     recs = cl.prepare(ctx, env, scns, workers=workers)
     for r in recs:
         # recovery (remove the stale lock, commit again) after every kill: quick tier in the scenarios whose commit deletes staged files
-        r.recover = (not ctx.quick()) or r.scn.kind in ("dedup", "manydup")
+        r.recover = (not ctx.quick()) or r.scn.kind in ("dedup", "manydup", "dupold")
     wscn = [cl.Scn(*x) for x in cl.WRITE_GRANULARITY]
     for s in wscn:
         s.name += "-w"
